@@ -399,7 +399,7 @@ def threads_scan_facts(tree):
     if other or "sorted(" in ast.unparse(listing[0].value) or "reverse" in ast.unparse(fn):
         raise NotRecognised("threads: thread_ids touched in an unknown way: %s" % [ast.unparse(o) for o in other])
     out = {"sorts": bool(sorts)}
-    skips = False
+    skips = skips_esrch = False
     for t in ast.walk(loop):
         if isinstance(t, ast.Try):
             for h in t.handlers:
@@ -409,11 +409,22 @@ def threads_scan_facts(tree):
                 elif h.type is not None:
                     names = {extract.dotted(h.type)}
                 body = [ast.unparse(b) for b in h.body]
-                if {"FileNotFoundError", "ProcessLookupError"} <= names and body == ["hit_enoent = True", "continue"]:
-                    skips = True
+                if names and names <= {"FileNotFoundError", "ProcessLookupError"} and body == ["hit_enoent = True", "continue"]:
+                    skips = skips or "FileNotFoundError" in names
+                    skips_esrch = skips_esrch or "ProcessLookupError" in names
                 else:
                     raise NotRecognised("threads: handler %s" % ast.unparse(h))
+            # what the handler protects: opening AND reading the thread's stat file
+            tb = "\n".join(ast.unparse(b) for b in t.body)
+            if "open_binary(fname)" not in tb or "f.read()" not in tb:
+                raise NotRecognised("threads: try body %s" % tb[:80])
     out["skipsVanished"] = skips
+    out["skipsEsrch"] = skips_esrch
+    # the flag that decides whether _raise_if_not_alive() runs starts as False
+    inits = [s for s in before if isinstance(s, ast.Assign) and len(s.targets) == 1 and _is_name(s.targets[0], "hit_enoent")]
+    if len(inits) != 1 or not isinstance(inits[0].value, ast.Constant) or not isinstance(inits[0].value.value, bool):
+        raise NotRecognised("threads: hit_enoent initialisation %s" % [ast.unparse(i) for i in inits])
+    out["hitStartsFalse"] = inits[0].value.value is False
     checks = [s for s in after if isinstance(s, ast.If) and ast.unparse(s.test) == "hit_enoent"
               and [ast.unparse(b) for b in s.body] == ["self._raise_if_not_alive()"] and not s.orelse]
     out["checksAlive"] = bool(checks)
@@ -599,9 +610,13 @@ def facts(snap, F):
               "create_time(): bt = BOOT_TIME or boot_time()")
     F.try_add("threadsSorts", "Bool", lambda: B(ts()["sorts"]), "threads(): thread_ids.sort() before the loop")
     F.try_add("threadsSkipsVanished", "Bool", lambda: B(ts()["skipsVanished"]),
-              "threads(): except (FileNotFoundError, ProcessLookupError): hit_enoent = True; continue")
+              "threads(): except (FileNotFoundError, ...): hit_enoent = True; continue")
     F.try_add("threadsChecksAlive", "Bool", lambda: B(ts()["checksAlive"]),
               "threads(): if hit_enoent: self._raise_if_not_alive()")
+    F.try_add("threadsSkipsEsrch", "Bool", lambda: B(ts()["skipsEsrch"]),
+              "threads(): ProcessLookupError (ESRCH from open or read of task/<tid>/stat) is caught like FileNotFoundError")
+    F.try_add("threadsHitStartsFalse", "Bool", lambda: B(ts()["hitStartsFalse"]),
+              "threads(): hit_enoent = False before the loop (the final liveness check runs only after a vanished thread)")
 
     def statuses():
         ps_mod = snap_psutil(snap)
